@@ -363,22 +363,36 @@ struct Image {
   }
 };
 
+// A *consistent* palette (what every real caller supplies): reading index i gives rgba[i], and storing rgba[i] gives i
+// back, i.e. ent[key(rgba[i])] == i with distinct keys (15-bit RGB for colour palettes, 15-bit luminance for grey ones).
+// Entries of ent[] that no palette colour maps to hold arbitrary valid indices.
 inline void make_palette(pixman_indexed_t *pal, pixman_format_code_t f, uint64_t seed) {
   Mix mx(seed ^ 0x5151);
   memset(pal, 0, sizeof *pal);
   pal->color = ftype(f) == PIXMAN_TYPE_COLOR;
   int n = 1 << bpp(f);
   if (n > 256) n = 256;
-  for (int i = 0; i < 256; i++) {
-    uint32_t v = mx.u32();
-    if (ftype(f) == PIXMAN_TYPE_GRAY) {
-      uint32_t g = v & 0xff;
-      v = 0xff000000 | (g << 16) | (g << 8) | g;
-    } else
-      v |= 0xff000000;
-    pal->rgba[i] = v;
-  }
   for (int i = 0; i < 32768; i++) pal->ent[i] = (uint8_t)(mx.u32() % n);
+  std::vector<char> used(32768, 0);
+  for (int i = 0; i < 256; i++) {
+    uint32_t v, key;
+    for (;;) {
+      if (ftype(f) == PIXMAN_TYPE_GRAY) {
+        uint32_t g = mx.u32() & 0xff;
+        v = 0xff000000 | (g << 16) | (g << 8) | g;
+        key = (g * 153 + g * 301 + g * 58) >> 2;
+      } else {
+        v = mx.u32() | 0xff000000;
+        key = (((v >> 16) & 0xff) >> 3) << 10 | (((v >> 8) & 0xff) >> 3) << 5 | ((v & 0xff) >> 3);
+      }
+      if (i >= n || !used[key]) break;  // entries beyond the format's index range are never read
+    }
+    pal->rgba[i] = v;
+    if (i < n) {
+      used[key] = 1;
+      pal->ent[key] = (uint8_t)i;
+    }
+  }
 }
 
 // fill storage according to d.fill/d.seed and create the pixman image on it
